@@ -230,7 +230,9 @@ def explain(g, gamma, delta, trace, model, den, timeout_ms, expr):
         if status != "ok":
             return [D23_KEY]
         chk = check_output(g, gamma, delta, e2, model, den, timeout_ms)
-        return [D23_KEY] if chk["violation"] is None and not chk["unknown"] else []
+        if chk["violation"] is None and chk["unknown"]:
+            return ["attribution-undecided"]
+        return [D23_KEY] if chk["violation"] is None else []
     if not flags:
         return []
     if (c07.CONDITION_ONLY | {D20_KEY, D23_KEY}) & set(flags):
@@ -245,6 +247,8 @@ def explain(g, gamma, delta, trace, model, den, timeout_ms, expr):
     chk = check_output(g, gamma, delta, e2, model, den, timeout_ms)
     if chk["violation"] is None and not chk["unknown"]:
         return flags
+    if chk["violation"] is None and chk["unknown"]:
+        return ["attribution-undecided"]  # the solver timed out on the corrected re-run: neither excused nor reported
     return []
 
 
@@ -410,6 +414,12 @@ def run() -> int:
             what = f"idc_star returned {short(r.get('est'), 120)} for {key}: " + (
                 f"value {v['est']} != P(gamma | delta) = {v['truth']} at {v['env']}" if v["kind"] == "wrong" else v["why"]
             )
+            if r.get("explained") == ["attribution-undecided"]:
+                # a wrong output at a call site of a known finding, and the solver timed out when asked whether the
+                # harness-side correction makes it right: inconclusive (listed), neither a known finding nor a violation
+                rep.inconclusive += 1
+                rep.inconclusive_samples.append(key + " (attribution to a known finding undecided: solver timeout on the corrected re-run)")
+                continue
             rep.add_violation(Violation(PROP, [key] + list(r.get("explained") or []), what, p))
     if not rep.samples:
         rep.add_sample({"note": "no verified non-trivial output in this run"})
